@@ -196,11 +196,11 @@ theorem faceAdj_iff (n0 n1 i j : Nat) (hi : n0 * n1 ≤ i) (hiN : i < ofcNsites 
     eq_mul_add_iff (show y < n1 by omega), eq_mul_add_iff (show y + 1 < n1 by omega)]
   omega
 
-theorem ofcAdj_iff (n0 n1 : Nat) (pbc : List Bool) (i j : Nat) :
+theorem ofcAdj_iff (n0 n1 : Nat) (pbc : List Bool) (hw : NoTrivialWrap [n0, n1] pbc) (i j : Nat) :
     ofcAdj n0 n1 pbc i j = true ↔
       i < ofcNsites n0 n1 ∧ j < ofcNsites n0 n1 ∧ OfcNN n0 n1 pbc (ofcCoord n0 n1 i) (ofcCoord n0 n1 j) := by
   have hs : sprod [n0, n1] = n0 * n1 := by simp [sprod]
-  simp only [ofcAdj, Bool.and_eq_true, decide_eq_true_eq, Bool.or_eq_true, gridAdj_iff, hs, unravel_two, and_assoc, or_assoc]
+  simp only [ofcAdj, gridAdjRaw_eq _ _ _ _ hw, Bool.and_eq_true, decide_eq_true_eq, Bool.or_eq_true, gridAdj_iff, hs, unravel_two, and_assoc, or_assoc]
   refine and_congr_right fun hiN => and_congr_right fun hjN => ?_
   by_cases hi : i < n0 * n1 <;> by_cases hj : j < n0 * n1
   · -- two vertices
